@@ -13,5 +13,8 @@ def compare_context():
     global _eq_check_only
     old_eq_only = _eq_check_only
     _eq_check_only = True
-    yield
-    _eq_check_only = old_eq_only
+    try:
+        yield
+    finally:
+        # an __eq__ which raises should not leave the mode switched on
+        _eq_check_only = old_eq_only
